@@ -81,6 +81,11 @@ CHECKS["C05"] = dict(
    text="History search with a differential oracle: generated interleavings of reads (masks with views, statistics, histograms, derived and linked values) and mutations (update_components, update_values_from_data incl. new shapes, move_to, ROI field edits, state setters at any depth, state replacement, link add/remove/replace) run on long-lived objects; after every mutation each observable must equal the one from brand-new objects rebuilt from the live objects' current parameters. Histogram layer states (settings) and live histogram/profile viewers (data updates) are covered the same way.",
    note="Trusted: the parameter read-back in pbt/props/c05.py (rebuild_state/rebuild_roi). One open finding (direct ROI field edit under a composite) is suppressed by its exact signature and reproduced on every run.",
    ref="DESIGN.md section 4 C05")
+CHECKS["C16"] = dict(
+   technique="property-based testing (Hypothesis): generated link geometries and request sequences vs. an own nearest-pixel resampler, with and without a shared cache id",
+   text="Generated-input search with a reference implementation: for generated reference/source shapes, axis permutations, scalings and offsets between the pixel frames, bounds (scalar and ranged, partly or wholly outside), value and mask requests, broadcast on/off and sequences of up to 8 requests sharing one cache id (varying bounds, attribute, selection and source dataset), every buffer must equal nearest-pixel resampling computed independently, NaN/False outside the source, with the scalar-bound dimensions dropped.",
+   note="Trusted: the resampler in pbt/props/c16.py; exact affine pixel links; samples within 1e-9 of a half-integer position are not compared; data and links fixed within a sequence.",
+   ref="DESIGN.md section 4 C16")
 NOT_APPLICABLE = []
 
 def main():
